@@ -452,7 +452,12 @@ impl<C: IterConfig> BucketIter<C> {
                 })
             }
             None => {
-                if let Some((segment_id, index)) = live_indexes.get(&bucket_id) {
+                // Only a forward scan can continue into the live segment here. A reverse scan
+                // has already been through it (or started below it): falling back to it would
+                // return its events a second time
+                if matches!(dir, IterDirection::Forward)
+                    && let Some((segment_id, index)) = live_indexes.get(&bucket_id)
+                {
                     let segment_id = segment_id.load(Ordering::Acquire);
                     if let Some((file_offsets, offsets_index)) = config
                         .try_get_from_live_indexes(index, from_position, dir)
